@@ -554,9 +554,10 @@ type layout struct {
 	es  []ent
 }
 
-func (g *gen) validLayout() (layout, bool) {
+func (g *gen) validLayout() (layout, bool) { return g.validLayoutN(g.imageSize()) }
+
+func (g *gen) validLayoutN(n int) (layout, bool) {
 	r := g.r
-	n := g.imageSize()
 	a := &alloc{n: n, r: r}
 	a.take(n-0x40, n-0x40+8)
 	k := 1 + r.Intn(7)
@@ -830,5 +831,222 @@ func (g *gen) genGet(n int) {
 		}
 		ps = append(ps, fmt.Sprintf("%d=%s", tbl, core.Hex(tb)))
 		g.add(kind, "get", "img", img+"/"+strings.Join(ps, "/"))
+	}
+}
+
+// ---- several data-carrying entries of different kinds in one table
+
+// dataEntry builds an entry of the given kind that carries l bytes of data (l is rounded to what
+// the kind can announce); ok = false when no room is left
+func (g *gen) dataEntry(a *alloc, kind, l int) (ent, bool) {
+	r := g.r
+	base := uint64(1<<32) - uint64(a.n)
+	h := g.randHdr()
+	h.TypeAndIsChecksumValid = fit.TypeAndIsChecksumValid(g.typeOfKind(kind)) | (h.TypeAndIsChecksumValid & 0x80)
+	switch {
+	case kind == kSACM:
+		l = max(l&^3, 28)
+	case isByteKind(kind):
+		l = max(l, 1)
+	default:
+		l = max(l&^15, 16)
+	}
+	off := a.place(l)
+	if off < 0 {
+		return ent{}, false
+	}
+	e := ent{kind: kind, data: g.randData(l)}
+	h.Address = fit.Address64(base + uint64(off))
+	switch {
+	case kind == kSACM:
+		binary.LittleEndian.PutUint32(e.data[24:], uint32(l/4))
+		if r.Intn(2) == 0 {
+			setSize(&h, 0)
+		}
+	case isByteKind(kind):
+		setSize(&h, l)
+	default:
+		setSize(&h, l/16)
+	}
+	e.hdr = h
+	return e, true
+}
+
+var dataKinds = []int{kMicrocode, kSACM, kBIOSStartup, kBIOSPolicy, kKeyManifest, kBootPolicy, kCSESecureBoot,
+	kFeaturePolicy, kJMPDebug, kSkip, kUnknown}
+
+// genMultiData: 2–6 data-carrying entries of different kinds in one table, with sizes in
+// descending / equal / ascending / mixed order across the sizes a reader may treat differently
+// (below and above 512 = bytes.MinRead, a page, 32 KiB).  A read-back that mixes up or reuses the
+// storage of the segments shows here.
+func (g *gen) genMultiData(count int) {
+	r := g.r
+	sizes := []int{16, 32, 48, 64, 96, 160, 256, 496, 512, 528, 1024, 2048, 4096, 4112, 8192, 16384, 32768}
+	for i := 0; i < count; i++ {
+		n := []int{4096, 8192, 16384, 32768, 65536, 131072}[r.Intn(6)]
+		m := 2 + r.Intn(5)
+		large := i%4 == 3
+		if large { // only large segments
+			m = 2 + r.Intn(2)
+			n = []int{131072, 262144}[r.Intn(2)]
+		}
+		if r.Intn(6) == 0 {
+			n += []int{-1, 1, 16, 100}[r.Intn(4)]
+		}
+		a := &alloc{n: n, r: r}
+		a.take(n-0x40, n-0x40+8)
+		k := 1 + m
+		tbl := a.place(16 * k)
+		if tbl < 0 {
+			continue
+		}
+		// sizes: at most half of the image in total; every fourth case only large segments
+		var ls []int
+		budget := n / 2
+		for j := 0; j < m; j++ {
+			l := sizes[r.Intn(len(sizes))]
+			if large {
+				l = []int{8192, 16384, 32768, 65536}[r.Intn(4)]
+			}
+			for l > budget/(m-j) && l > 16 {
+				l /= 2
+			}
+			budget -= l
+			ls = append(ls, l)
+		}
+		switch r.Intn(5) {
+		case 0: // descending
+			for x := range ls {
+				for y := x + 1; y < len(ls); y++ {
+					if ls[y] > ls[x] {
+						ls[x], ls[y] = ls[y], ls[x]
+					}
+				}
+			}
+		case 1: // ascending
+			for x := range ls {
+				for y := x + 1; y < len(ls); y++ {
+					if ls[y] < ls[x] {
+						ls[x], ls[y] = ls[y], ls[x]
+					}
+				}
+			}
+		case 2: // all equal
+			for x := range ls {
+				ls[x] = ls[0]
+			}
+		}
+		es := []ent{g.entry0(k)}
+		perm := r.Perm(len(dataKinds))
+		ok := true
+		for j, l := range ls {
+			kind := dataKinds[perm[j%len(perm)]]
+			if !isByteKind(kind) && kind != kSACM && r.Intn(3) == 0 && l%16 != 0 {
+				l += 16
+			}
+			if isByteKind(kind) && r.Intn(2) == 0 {
+				l += r.Intn(15) // byte-counted kinds: any length
+			}
+			e, placed := g.dataEntry(a, kind, l)
+			if !placed {
+				ok = false
+				break
+			}
+			es = append(es, e)
+		}
+		if !ok {
+			continue
+		}
+		if r.Intn(4) == 0 { // a data-less neighbour in between
+			j := 1 + r.Intn(len(es)-1)
+			h := g.randHdr()
+			h.TypeAndIsChecksumValid = 0x0A // TXT policy: never a data segment
+			es = append(es[:j], append([]ent{{kind: kTXTPolicy, hdr: h}}, es[j:]...)...)
+			if a.free(tbl+16*k, tbl+16*k+16) {
+				k++
+				setSize(&es[0].hdr, k)
+			} else {
+				es = append(es[:j], es[j+1:]...)
+			}
+		}
+		g.addInject("inject-multidata", layout{n: n, img: g.imageRecipe(n), tbl: uint64(tbl), es: es}, false)
+	}
+}
+
+// ---- sequences of two injections into the same image (runInjectSeq)
+
+func (g *gen) genInjectSeq(count int) {
+	r := g.r
+	for i := 0; i < count; i++ {
+		n := 256 + r.Intn(8192-256)
+		if r.Intn(3) == 0 {
+			n = []int{512, 1024, 2048, 4096, 8192}[r.Intn(5)]
+		}
+		l1, ok := g.validLayoutN(n)
+		if !ok || len(l1.es) < 2 {
+			continue
+		}
+		base := uint64(1<<32) - uint64(n)
+		l2 := layout{n: n, tbl: l1.tbl}
+		for _, e := range l1.es {
+			l2.es = append(l2.es, ent{e.kind, e.hdr, append([]byte(nil), e.data...)})
+		}
+		kind := "seq-independent"
+		img2 := ""
+		switch r.Intn(7) {
+		case 6: // another image of another size
+			n2 := 256 + r.Intn(8192-256)
+			if n2 == n {
+				n2++
+			}
+			var ok2 bool
+			l2, ok2 = g.validLayoutN(n2)
+			if !ok2 {
+				continue
+			}
+			img2 = l2.img
+			kind = "seq-other-image"
+		case 0: // an unrelated second layout
+			var ok2 bool
+			l2, ok2 = g.validLayoutN(n)
+			if !ok2 {
+				continue
+			}
+		case 1: // the same entries, table moved (the old table stays behind)
+			a := &alloc{n: n, r: r}
+			a.take(n-0x40, n-0x40+8)
+			for _, e := range l1.es {
+				if len(e.data) > 0 {
+					off := int(uint64(e.hdr.Address) - base)
+					a.take(off, off+len(e.data))
+				}
+			}
+			t := a.place(16 * len(l1.es))
+			if t < 0 {
+				continue
+			}
+			l2.tbl = uint64(t)
+			kind = "seq-table-moved"
+		case 2: // fewer entries at the same place (the tail of the old table stays behind)
+			keep := 1 + r.Intn(len(l2.es)-1)
+			l2.es = l2.es[:keep]
+			setSize(&l2.es[0].hdr, keep)
+			kind = "seq-shorter"
+		case 3: // the same entries in another order
+			rest := l2.es[1:]
+			r.Shuffle(len(rest), func(x, y int) { rest[x], rest[y] = rest[y], rest[x] })
+			kind = "seq-reordered"
+		case 4: // the same layout, other data
+			for j := range l2.es {
+				if len(l2.es[j].data) > 0 && l2.es[j].kind != kSACM {
+					l2.es[j].data = g.randData(len(l2.es[j].data))
+				}
+			}
+			kind = "seq-new-data"
+		case 5: // the same again
+			kind = "seq-repeat"
+		}
+		g.add(kind, "injectseq", "img", l1.img, "tbl", fmt.Sprint(l1.tbl), "entries", showEnts(l1.es),
+			"tbl2", fmt.Sprint(l2.tbl), "entries2", showEnts(l2.es), "img2", img2)
 	}
 }
